@@ -151,7 +151,108 @@ def run(ctx):
         c12.VALIDATOR_RE = saved
         _effects.USER_EXC.clear()
         _effects.USER_EXC.update(saved_exc)
+    check_scratch_lines(ctx, parsers)
     check_entries(ctx)
+
+
+def check_scratch_lines(ctx, parsers):
+    """R10.4: the reparse splices the new text into a line list *before* it knows whether the result parses (`FST(Pass(), copy_lines, None,
+    lcopy=False)` adopts the list, `_put_src` writes into it, then the parser is called).  That list must never be the live line list of
+    the target tree: every call site hands over a copy (`root._lines[:]`, a list built from pieces), or its own parameter in the same role."""
+    ctx.rule('R10.4', 'a line list that a reparse function writes into before its parser call is, at every call site, not the live line list of a '
+                      'tree (`X._lines` or a local bound to it)', 2)
+    m = ctx.repo.mod('fst_raw')
+    funcs = [fi for q, fis in m.funcs.items() if '.' not in q for fi in fis if not isinstance(fi.node, ast.Lambda)]
+
+    def is_parse(x):
+        return isinstance(x, ast.Call) and (call_name(x) in parsers or
+                                            (isinstance(x.func, ast.IfExp) and all(isinstance(b, ast.Name) and b.id in parsers for b in (x.func.body, x.func.orelse))))
+    # scribbled[function name] = {parameter: description}: parameters written into / adopted by a scratch tree before the parse
+    scribbled = {}
+    for fi in funcs:
+        ps = fi.params()
+        cfg = CFG(fi.node)
+        pn = {n.id for n in cfg.nodes if any(is_parse(x) for x in subnodes(cfg, n))}
+        if not pn:
+            continue
+        before = cfg.reachable(cfg.entry, lambda n, lab, s: n.id not in pn or lab == 'exc') | {cfg.entry}
+        rebound = {x.id for x in walk_no_nested(fi.node) if isinstance(x, ast.Name) and isinstance(x.ctx, ast.Store)}
+        for node in cfg.nodes:
+            if node.id not in before or node.id in pn:
+                continue
+            for x in subnodes(cfg, node):
+                if isinstance(x, ast.Call) and call_name(x) == 'FST' and len(x.args) >= 2 and isinstance(x.args[1], ast.Name) and \
+                        x.args[1].id in ps and x.args[1].id not in rebound and \
+                        any(k.arg == 'lcopy' and isinstance(k.value, ast.Constant) and k.value.value is False for k in x.keywords):
+                    scribbled.setdefault(fi.name, {})[x.args[1].id] = f'adopted by a scratch tree at line {x.lineno} before the parser call'
+                elif isinstance(x, (ast.Assign, ast.AugAssign, ast.Delete)):
+                    for t in (x.targets if not isinstance(x, ast.AugAssign) else [x.target]):
+                        if isinstance(t, ast.Subscript) and isinstance(t.value, ast.Name) and t.value.id in ps and t.value.id not in rebound:
+                            scribbled.setdefault(fi.name, {})[t.value.id] = f'written into at line {x.lineno} before the parser call'
+    # a function that hands its own parameter on in that role has the same obligation towards its callers
+    changed = True
+    while changed:
+        changed = False
+        for fi in funcs:
+            ps = fi.params()
+            rebound = {x.id for x in walk_no_nested(fi.node) if isinstance(x, ast.Name) and isinstance(x.ctx, ast.Store)}
+            for c in walk_no_nested(fi.node):
+                if isinstance(c, ast.Call) and isinstance(c.func, ast.Name) and c.func.id in scribbled:
+                    for g in m.func(c.func.id):
+                        gp = g.params()
+                        for q, why in scribbled[c.func.id].items():
+                            a = c.args[gp.index(q)] if gp.index(q) < len(c.args) and not any(isinstance(z, ast.Starred) for z in c.args) else \
+                                next((k.value for k in c.keywords if k.arg == q), None)
+                            if isinstance(a, ast.Name) and a.id in ps and a.id not in rebound and a.id not in scribbled.get(fi.name, {}):
+                                scribbled.setdefault(fi.name, {})[a.id] = f'handed to {c.func.id}() which has it {why}'
+                                changed = True
+    if not scribbled:
+        raise AnalysisError('no reparse function writes into a scratch line list before parsing (anchor vanished)')
+    ctx.extra['scratch_line_list_params'] = {k: sorted(v) for k, v in scribbled.items()}
+
+    def live(fi, e, depth=0):
+        """Does expression `e` (in function fi) possibly denote the live line list of a tree?"""
+        if isinstance(e, ast.NamedExpr):
+            return live(fi, e.value, depth)
+        if isinstance(e, ast.Attribute):
+            return e.attr in ('_lines', 'lines')
+        if isinstance(e, ast.IfExp):
+            return live(fi, e.body, depth) or live(fi, e.orelse, depth)
+        if isinstance(e, ast.Name) and depth < 3:
+            for x in walk_no_nested(fi.node):
+                if isinstance(x, ast.Assign) and any(isinstance(t, ast.Name) and t.id == e.id for t in x.targets) and live(fi, x.value, depth + 1):
+                    return True
+                if isinstance(x, ast.NamedExpr) and x.target.id == e.id and live(fi, x.value, depth + 1):
+                    return True
+        return False
+    n = 0
+    for fi in ctx.repo.all_funcs():
+        if isinstance(fi.node, ast.Lambda):
+            continue
+        ps = fi.params()
+        for c in walk_no_nested(fi.node):
+            if not (isinstance(c, ast.Call) and call_name(c) in scribbled):
+                continue
+            for g in m.func(call_name(c)):
+                gp = g.params()
+                bound = isinstance(c.func, ast.Attribute)
+                eff = gp[1:] if bound and gp[:1] == ['self'] else gp
+                for q, why in scribbled[call_name(c)].items():
+                    if q not in eff or any(isinstance(z, ast.Starred) for z in c.args):
+                        continue
+                    i = eff.index(q)
+                    a = c.args[i] if i < len(c.args) else next((k.value for k in c.keywords if k.arg == q), None)
+                    if a is None:
+                        continue
+                    if isinstance(a, ast.Name) and a.id in scribbled.get(fi.name, {}):
+                        continue                  # own parameter in the same role: checked at this function's call sites
+                    n += 1
+                    ctx.check('R10.4', not live(fi, a), fi.module, fi.qualname, f'{call_name(c)}(... {q}={norm(a, 40)} ...)',
+                              f'`{norm(a, 40)}` may be the live line list of a tree, and {call_name(c)}() has its parameter `{q}` {why}: text that does '
+                              f'not parse would stay spliced into the source while tree and positions are the old ones', c.lineno,
+                              sample={'function': fi.key, 'call': norm(c, 90)})
+    if n < 2:
+        raise AnalysisError(f'only {n} call sites hand a scratch line list to a reparse function')
 
 
 def check_entries(ctx):
